@@ -31,14 +31,32 @@ type layoutSpec struct {
 	MD5      bool     `json:"md5,omitempty"`
 	// Siblings are further (prefix-related) tables present in the cluster.
 	Siblings []string `json:"siblings,omitempty"`
+	// AddrStyle: how regionserver locations are written in hbase:meta: 0 host name, 1 IPv4,
+	// 2 bracketed IPv6, 3 un-bracketed IPv6 (what HBase 1.x writes), 4 mixed-case FQDN with a
+	// trailing dot. The client has to use the string as it stands (the custom dialer resolves it).
+	AddrStyle int `json:"addr_style,omitempty"`
 }
 
 func serverAddr(i int) string { return fmt.Sprintf("rs%d:16020", i+1) }
 
+func styledAddr(style, i int) string {
+	switch style {
+	case 1:
+		return fmt.Sprintf("10.0.0.%d:16020", i+1)
+	case 2:
+		return fmt.Sprintf("[2001:db8::%d]:16020", i+1)
+	case 3:
+		return fmt.Sprintf("2001:db8::%d:16020", i+1)
+	case 4:
+		return fmt.Sprintf("RS-%d.Example.COM.:16020", i+1)
+	}
+	return serverAddr(i)
+}
+
 func (l layoutSpec) addrs() []string {
 	var out []string
 	for i := 0; i < l.NServers; i++ {
-		out = append(out, serverAddr(i))
+		out = append(out, styledAddr(l.AddrStyle, i))
 	}
 	return out
 }
@@ -70,6 +88,7 @@ func genLayout(t *rapid.T, maxRegions, maxServers int) layoutSpec {
 	}
 	l.NServers = rapid.IntRange(1, maxServers).Draw(t, "nservers")
 	l.MD5 = rapid.Bool().Draw(t, "md5")
+	l.AddrStyle = rapid.SampledFrom([]int{0, 0, 0, 1, 2, 3, 4}).Draw(t, "addrstyle")
 	if rapid.IntRange(0, 2).Draw(t, "siblings") == 0 {
 		l.Siblings = []string{"t", "t-", "t.", "tt", "s"}
 	}
